@@ -498,6 +498,8 @@ func runFiller(rng *rand.Rand, n int) []string {
 	for i := 0; i < n; i++ {
 		d := genStruct(rng, 0)
 		ptr := rng.Intn(2) == 0
+		// FillExisting: the builder takes the struct to fill (a pointer) from the chain instead of making one
+		existing := ptr && rng.Intn(3) == 0
 		st := d.goType()
 		ids := &structIDs{}
 		var model any
@@ -506,10 +508,14 @@ func runFiller(rng *rand.Rand, n int) []string {
 		} else {
 			model = reflect.New(st).Elem().Interface()
 		}
-		line := fmt.Sprintf("filler %d ptr=%d s=%s", i, b2i(ptr), d.encode(ids))
+		line := fmt.Sprintf("filler %d ptr=%d ex=%d s=%s", i, b2i(ptr), b2i(existing), d.encode(ids))
 		var p nject.Provider
 		var err error
-		s := guarded(5*time.Second, func() { p, err = nject.MakeStructBuilder(model) })
+		var opts []nject.FillerFuncArg
+		if existing {
+			opts = append(opts, nject.FillExisting)
+		}
+		s := guarded(5*time.Second, func() { p, err = nject.MakeStructBuilder(model, opts...) })
 		if s != "" {
 			out = append(out, line+" result="+s)
 			continue
@@ -521,7 +527,9 @@ func runFiller(rng *rand.Rand, n int) []string {
 		ins, _ := p.DownFlows()
 		ic := make([]int, len(ins))
 		for k, t := range ins {
-			if t.Kind() == reflect.Struct {
+			if t == reflect.PointerTo(st) {
+				ic[k] = 98 // the struct to fill itself
+			} else if t.Kind() == reflect.Struct {
 				ic[k] = ids.code(t)
 			} else {
 				ic[k] = 99
@@ -552,7 +560,15 @@ func runFiller(rng *rand.Rand, n int) []string {
 				items = append(items, w.Interface())
 			}
 		}
+		var given reflect.Value
+		if existing {
+			// the struct that is to be filled: every leaf holds 55 beforehand
+			given = reflect.New(st)
+			markAll(given.Elem(), 55)
+			items = append(items, given.Interface())
+		}
 		var fields []string
+		same := true
 		wantT := st
 		if ptr {
 			wantT = reflect.PointerTo(st)
@@ -560,6 +576,9 @@ func runFiller(rng *rand.Rand, n int) []string {
 		final := reflect.MakeFunc(reflect.FuncOf([]reflect.Type{wantT}, nil, false), func(in []reflect.Value) []reflect.Value {
 			v := in[0]
 			if ptr {
+				if existing && v.Pointer() != given.Pointer() {
+					same = false
+				}
 				v = v.Elem()
 			}
 			readLeaves(v, nil, &fields)
@@ -570,6 +589,10 @@ func runFiller(rng *rand.Rand, n int) []string {
 		s = guarded(5*time.Second, func() { runErr = nject.Run("filler", items...) })
 		if s != "" || runErr != nil {
 			out = append(out, fmt.Sprintf("%s result=runfail:%s%v", line, s, oneLine(fmt.Sprint(runErr))))
+			continue
+		}
+		if !same {
+			out = append(out, fmt.Sprintf("%s result=runfail:FillExisting-handed-on-another-struct-than-the-one-it-was-given", line))
 			continue
 		}
 		out = append(out, fmt.Sprintf("%s result=ok inputs=%s fields=%s", line, fmtCodes(ic), orDash(strings.Join(fields, ","))))
